@@ -123,9 +123,11 @@ def main(argv=None):
     obs = pm.obligations(a.tier, seed)
     if a.only:
         obs = [o for o in obs if a.only in o["name"]]
+    scale = float(os.environ.get("VF_TIMEOUT_SCALE", "1.6"))      # head-room: budgets were measured on an otherwise idle machine
     for o in obs:
         o.setdefault("engine", "X")
         o.setdefault("timeout", 120)
+        o["timeout"] = int(o["timeout"] * scale)
     findings = known.load(pid)
     obs, finding_obs = known.partition(obs, findings)
     jobs = []
